@@ -69,6 +69,21 @@ type parliaModel struct {
 	pending []common.Address
 	sealers map[uint64]common.Address
 	epoch   uint64
+	// retained is the recent-signer window as Parlia's snapshot keeps it: one entry per accepted height, the entry
+	// number-(N/2+1) dropped at every block with the N of that moment. After the set grows it holds fewer heights
+	// than floor(N/2), which is what separates the recorded finding from any other recency failure.
+	retained map[uint64]common.Address
+}
+
+// retainedRecent reports whether a is within the retained window for a header at height n with N validators.
+func (m *parliaModel) retainedRecent(a common.Address, n uint64, N int) bool {
+	limit := uint64(N/2 + 1)
+	for h, x := range m.retained {
+		if x == a && h+limit > n {
+			return true
+		}
+	}
+	return false
 }
 
 func (m *parliaModel) eligible(n uint64) []common.Address {
@@ -122,7 +137,7 @@ func checkC17(c C17Case, col *Collector) outcome {
 	}
 	set0 = lcgen.SortAddrs(set0)
 	gas0 := []uint64{30_000_000, 5_100, 1 << 62, 8_000_000}[mod(c.Gas0, 4)]
-	gnum := epoch * 3
+	gnum := epoch * 8 // header numbers stay above N/2+1 for every N <= 21, as on any live chain
 	baseTime := uint64(1_700_000_000)
 	genesis := lcgen.NewParliaHeader(gnum, common.HexToHash("0x01"), set0[0], 2, gas0, 0, baseTime, crypto.Keccak256Hash([]byte("root0")), set0)
 	lcgen.Seal(genesis, c17ChainID, keyOf(set0[0]))
@@ -137,7 +152,7 @@ func checkC17(c C17Case, col *Collector) outcome {
 	if err := k.CreateClient(ctx, name, cs, cons); err != nil {
 		return v("setup", "create bsc client failed: %v", err)
 	}
-	m := &parliaModel{latest: genesis, vals: set0, pending: set0, sealers: map[uint64]common.Address{}, epoch: epoch}
+	m := &parliaModel{latest: genesis, vals: set0, pending: set0, sealers: map[uint64]common.Address{}, epoch: epoch, retained: map[uint64]common.Address{}}
 	nextFresh := n0
 	setChanges, rejected, epochsCrossed := 0, 0, 0
 
@@ -254,6 +269,11 @@ func checkC17(c C17Case, col *Collector) outcome {
 				applied = "valid"
 			} else {
 				rs := cands[mod(st.Aux, len(cands))]
+				if !m.retainedRecent(rs, n, N) {
+					// sealed one of the preceding floor(N/2) blocks, but before the set grew: outside the window
+					// the snapshot retained
+					applied = "signer-signed-recently-before-set-growth"
+				}
 				sealKey = keyOf(rs)
 				hdr.Coinbase = rs.Bytes()
 				hdr.Difficulty = 1
@@ -338,6 +358,16 @@ func checkC17(c C17Case, col *Collector) outcome {
 		}()
 		accepted := uerr == nil
 		desc := fmt.Sprintf("step %d: header %d (%s) signer %s in-turn %s N=%d epoch=%d gas %d->%d", si, hdr.Height.RevisionHeight, applied, signer.Hex()[:10], inturn.Hex()[:10], N, epoch, parent.GasLimit, hdr.GasLimit)
+		if accepted && applied == "signer-signed-recently-before-set-growth" && col.known["C17:accepted-invalid-header/"+applied] {
+			// recorded finding: follow the code and keep searching behind it
+			sig := "accepted-invalid-header/" + applied
+			col.Known[sig]++
+			if _, ok := col.KnownExample[sig]; !ok {
+				col.KnownExample[sig] = desc + " was accepted"
+			}
+			wantAccept = true
+			signer = common.BytesToAddress(hdr.Coinbase)
+		}
 		if accepted != wantAccept {
 			if accepted {
 				return v("accepted-invalid-header/"+applied, "%s was accepted", desc)
@@ -351,6 +381,7 @@ func checkC17(c C17Case, col *Collector) outcome {
 		write()
 		// model transition
 		m.sealers[n] = signer
+		m.retained[n] = signer
 		m.latest = hdr
 		if isEpoch {
 			m.pending = lcgen.SortAddrs(listed)
@@ -360,7 +391,15 @@ func checkC17(c C17Case, col *Collector) outcome {
 			if !sameAddrs(m.vals, m.pending) {
 				setChanges++
 			}
+			if oldL, newL := len(m.vals)/2+1, len(m.pending)/2+1; newL < oldL {
+				for i := 0; i < oldL-newL; i++ {
+					delete(m.retained, n-uint64(newL)-uint64(i))
+				}
+			}
 			m.vals = m.pending
+		}
+		if limit := uint64(len(m.vals)/2 + 1); n >= limit {
+			delete(m.retained, n-limit)
 		}
 		// state after acceptance
 		rctx := ctx
